@@ -23,20 +23,122 @@ def sameUpToRecordOrder : List (List String) → Bool
 /-- first field of a record (the tree id) -/
 def recordId (line : String) : String := (line.splitOn "\t").headD ""
 
-/-- within one run no two records carry the same id (the header line counts as a record) -/
+/-- a per-tree record: a line whose first TAB field is a number (the tree identifier) -/
+def isRecord (line : String) : Bool := (recordId line).toNat?.isSome
+
+/-- within one run no two per-tree records carry the same tree id -/
 def recordsKeyed (run : List String) : Bool :=
-  let ids := run.map recordId
+  let ids := (run.filter isRecord).map recordId
   ids.eraseDups.length == ids.length
+
+/-- the lines that are not per-tree records (exit status, header, anything without a numeric id) must
+    come out identically, in the same order, in every run: only id-carrying records may move -/
+def nonRecordsFixed : List (List String) → Bool
+  | [] => true
+  | r :: rs => rs.all (fun x => x.filter (fun l => !isRecord l) == r.filter (fun l => !isRecord l))
 
 /-- the property on one request: `runs` = per run, the list of output items -/
 def deterministic (threaded : Bool) (runs : List (List String)) : Bool :=
   oneOutput (runs.map (fun r => String.intercalate "\n" r)) ||
-  (threaded && sameUpToRecordOrder runs && runs.all recordsKeyed)
+  (threaded && sameUpToRecordOrder runs && runs.all recordsKeyed && nonRecordsFixed runs)
 
 /-- what the extractor must find in its synthetic self-test package (harness/c18/extract.go `SelfTest`):
     one of every construct of table (c), none for a range over a slice or a write to os.Stderr -/
 def selfTestExpected : String :=
   "address@F clock@F[if len(s) == 0] goroutine@F maprange@F maprange@T.Keys pid@F pointerarg@F pointerarg@F pointerfmt@F reflectmap@F seed@F[if len(s) == 0] select@F"
+
+/-! ### "all commands": the runnable commands of the live command tree and the run templates -/
+
+/-- commands (paths below `gotree`) exercised by at least one run template of harness/c18/templates.go;
+    the driver checks on every run (`C18.commands`) that the harness really has a template for each -/
+def templateCommands : List String := [
+  "acr",
+  "annotate",
+  "asr",
+  "brlen add",
+  "brlen clear",
+  "brlen cut",
+  "brlen round",
+  "brlen scale",
+  "brlen set",
+  "brlen setmin",
+  "brlen setrand",
+  "collapse clade",
+  "collapse depth",
+  "collapse length",
+  "collapse name",
+  "collapse single",
+  "collapse support",
+  "comment clear",
+  "comment transfer",
+  "compare edges",
+  "compare tips",
+  "compare trees",
+  "compute bipartitiontree",
+  "compute consensus",
+  "compute edgetrees",
+  "compute mutations",
+  "compute roccurve",
+  "compute support booster",
+  "compute support classical",
+  "compute support fbp",
+  "compute support tbe",
+  "divide",
+  "draw cyjs",
+  "draw png",
+  "draw svg",
+  "draw text",
+  "generate balancedtree",
+  "generate caterpillartree",
+  "generate startree",
+  "generate topologies",
+  "generate uniformtree",
+  "generate yuletree",
+  "graft",
+  "labels",
+  "ltt",
+  "matrix",
+  "merge",
+  "nni",
+  "prune",
+  "reformat newick",
+  "reformat nexus",
+  "reformat phyloxml",
+  "rename",
+  "repopulate",
+  "reroot midpoint",
+  "reroot outgroup",
+  "resolve",
+  "resolve named",
+  "rotate rand",
+  "rotate sort",
+  "sample",
+  "shuffletips",
+  "stats",
+  "stats edges",
+  "stats monophyletic",
+  "stats nodes",
+  "stats rooted",
+  "stats splits",
+  "stats tips",
+  "subtree",
+  "support clear",
+  "support round",
+  "support scale",
+  "support setrand",
+  "unroot",
+  "version"]
+
+/-- runnable commands without a run template, each with its reason -/
+def omittedCommands : List (String × String) := [
+  ("download itol", "needs the iTOL server (network); package download is excluded and reviewed (excluded_sites_reviewed)"),
+  ("download ncbitax", "needs the NCBI ftp server (network); its map file is written in map order (ncbiMapLines_order_matters), not reachable offline"),
+  ("download panther", "needs the PantherDB server (network)"),
+  ("upload itol", "needs the iTOL server (network)")]
+
+/-- commands of the regenerated table that have neither a template nor a reason (must be empty) -/
+def uncoveredCommands : List String :=
+  Gen.C18Sites.commands.filter (fun c => !(templateCommands.contains c) && !((omittedCommands.map (·.1)).contains c))
 
 /-! ### what the observable sites must produce, stated on the map itself (pairs sorted, no loop) -/
 
@@ -61,6 +163,22 @@ def specDisjoint (mine other : List String) : Bool := mine.all (fun k => !(other
 def specRename (names : List String) (m : List (String × String)) : List String :=
   names.map (fun n => if n == "" then n else (m.lookup n).getD n)
 
+/- `CountMutations` at one site, stated on the leaves (no accumulation of maps): for every non-root node
+   whose character differs from its parent's, the number of leaves below it and how many of them carry its character -/
+mutual
+def specMutNode (charOf : String → Char) (prev : Option Char) : T → List MutObs
+  | .node d _ kids =>
+    let cur := charOf d.name
+    let below := (T.node d 0 kids).leaves
+    let own := match prev with
+      | some p => if p != cur then [⟨d.name, p, cur, below.length, (below.filter (fun n => charOf n == cur)).length⟩] else []
+      | none => []
+    specMutKids charOf cur kids ++ own
+def specMutKids (charOf : String → Char) (cur : Char) : Kids → List MutObs
+  | [] => []
+  | (_, t) :: r => specMutNode charOf (some cur) t ++ specMutKids charOf cur r
+end
+
 /-- keys (file:declaration:fingerprint#ordinal) of the map-range sites that have a
     `site_…_perm_invariant` theorem in Proofs/C18.lean (`provedSites_keys` there), in table order -/
 def provedSiteKeys : List String := [
@@ -79,12 +197,36 @@ def provedSiteKeys : List String := [
   "tree/tree.go:Tree.Rename:ea9659a5edb0#1",
   "tree/tree.go:Tree.Merge:c3180b3fd5e1#1"]
 
+/-- ONE table for the three things that must go together: the key of a site in the regenerated table, the
+    model function that stands for its loop, and the `C18.site-<case>` correspondence case in which the driver
+    runs that function against the real code.  Proofs/C18.lean `siteProofs` carries, per row, the function
+    itself and its invariance proof, and `siteProofs_table` decides that its (key, model, case) columns are
+    this table; the driver tags every site case with the key found here. -/
+def siteCaseTable : List (String × String × String) := [
+  ("acr/parsimony.go:ParsimonyAcr:466da4eec245#1", "acrAlphabet", "acralphabet"),
+  ("cmd/acr.go:acrCmd:69d303350f73#1", "acrStateLines", "acrstates"),
+  ("cmd/comparetips.go:difftipsCmd:b9b06c89dc0d#1", "compareTipsOutput", "comparetips"),
+  ("cmd/comparetrees.go:compareTreesCmd:f5977218f020#1", "rfLines", "rf"),
+  ("cmd/extractmutations.go:sortedMutationKeys:cff9c655e428#1", "sortedMutationKeys+mutationLines", "mutations"),
+  ("cmd/rename.go:writeNameMap:fec59d425afe#1", "nameMapLines", "namemap"),
+  ("mutations/counteems.go:CountEEMs:6958822e76a2#1", "eemRecords (inside countEEMs)", "eems"),
+  ("mutations/countmutations.go:countMutationSiteBranch:f14ba4b390f3#1", "charDist (inside countMutationsSite)", "chardist"),
+  ("mutations/mutations.go:MutationList.Append:7cd4e9aa30b3#1", "mutAppend", "append"),
+  ("tree/tipbags.go:TipBag.Tips:9479da34ef3f#1", "tipBagTips", "tipbag"),
+  ("tree/tree.go:Tree.UpdateTipIndex:105ae1ebc217#1", "updateTipIndex", "updatetipindex"),
+  ("tree/tree.go:Tree.CompareTipIndexes:77f5fc7a8940#1", "compareTipIndexes", "comparetipindexes"),
+  ("tree/tree.go:Tree.Rename:ea9659a5edb0#1", "renameFull", "rename"),
+  ("tree/tree.go:Tree.Merge:c3180b3fd5e1#1", "mergeDisjointLoop", "comparetipindexes")]
+
+/-- the table keys a correspondence case exercises -/
+def keysOfCase (case : String) : List String := (siteCaseTable.filter (·.2.2 == case)).map (·.1)
+
 /-- sites of the excluded packages (draw, download, upload: graphical output / network access,
     DESIGN §3.7), reviewed by hand: (key, disposition) -/
 def reviewedExcludedSites : List (String × String) := [
   ("download/itol.go:ItolImageDownloader.Download:bf5edd0f2625#1", "key-disjoint form.Add; url.Values.Encode sorts by key: order-insensitive"),
   ("download/ncbitax.go:NcbiTreeDownloader.writeMapfile:2739ff9ba6c0#1", "ORDER-SENSITIVE: lines written while ranging (ncbiMapLines_order_matters); needs the NCBI server, not reachable offline"),
-  ("draw/pngtreedrawer.go:pngTreeDrawer.initFonts:e33ec2aad504#1", "key-disjoint inserts into the font cache: order-insensitive")]
+  ("draw/pngtreedrawer.go:pngTreeDrawer.initFonts:e33ec2aad504#1", "key-disjoint inserts into the font cache, then look-ups only: proved, site_drawFonts_perm_invariant (the draw commands are run by the templates)")]
 
 /-- the other sources of order / address / clock dependence of the regenerated table, each reviewed:
     (key = kind:file:declaration:fingerprint of the statement and of its guard conditions, disposition) -/
